@@ -38,6 +38,18 @@ let show_status (c, t) = show_z c ^ "," ^ show_chars t
 let show_opt f = function Some a -> "some(" ^ f a ^ ")" | None -> "none"
 let okness = function ObsOk _ -> "ok" | ObsErr -> "err" | ObsPanic -> "panic" | ObsSkip -> "skip"
 
+let obs_href = obs_gen (function
+  | [user; host; scheme; opaque; path; rawpath; omit; fq; rq; frag; rfrag] ->
+    ((bool_ user, str host),
+     { u_scheme = str scheme; u_opaque = str opaque; u_path = str path; u_rawpath = str rawpath; u_omithost = bool_ omit;
+       u_forcequery = bool_ fq; u_rawquery = str rq; u_fragment = str frag; u_rawfragment = str rfrag })
+  | _ -> raise (Parse_error "obs href"))
+let show_url u = Printf.sprintf "scheme=%s opaque=%s path=%s rawpath=%s omithost=%b forcequery=%b rawquery=%s fragment=%s rawfragment=%s"
+  (show_chars u.u_scheme) (show_chars u.u_opaque) (show_chars u.u_path) (show_chars u.u_rawpath) u.u_omithost u.u_forcequery
+  (show_chars u.u_rawquery) (show_chars u.u_fragment) (show_chars u.u_rawfragment)
+let show_hres = function Ok (HUrl u) -> "ok(" ^ show_url u ^ ")" | Ok (HAuth (a, u)) -> "ok(authority=" ^ show_chars a ^ " " ^ show_url u ^ ")"
+  | Err _ -> "err" | Panic -> "panic"
+
 (* the detail text is only built for cases that are reported *)
 let verdict ~agree ~spec ~kf ~(detail : unit -> string) : string option =
   if agree && spec && kf = "-" then None else Sx.verdict ~agree ~spec ~kf ~detail:(detail ())
@@ -157,6 +169,47 @@ let () =
       bump ("unquote_dec_" ^ okness o);
       verdict ~agree:(unquote_dec_agrees b o) ~spec:true ~kf:"-"
         ~detail:(fun () -> Printf.sprintf "model=%s" (show_opt show_chars (unquote b)))
+    (* ---- hrefs *)
+    | [L [A "href-rt"; p]; L [m; o]] ->
+      let p = str p and m = str m and o = obs_href o in
+      bump (if href_in_domain p then "href_rt_in_domain" else "href_rt_outside");
+      if href_in_domain p then note_nontrivial (show (List.hd sx));
+      verdict ~agree:(href_rt_agrees p m o) ~spec:(href_rt_spec_ok p m o) ~kf:"-"
+        ~detail:(fun () -> Printf.sprintf "model marshal=%s unmarshal=%s" (show_chars (href_marshal p)) (show_hres (href_unmarshal (href_marshal p))))
+    | [L [A "href-e2e"; p]; L [ox; os]] ->
+      let p = str p and ox = obs_href ox and os = obs_str os in
+      let m = href_marshal p in
+      bump (if href_in_domain p then "href_e2e_in_domain" else "href_e2e_outside"); note_nontrivial (show (List.hd sx));
+      let model_path = match href_unmarshal m with Ok (HUrl u) -> ObsOk u.u_path | Ok (HAuth (_, u)) -> ObsOk u.u_path | _ -> ObsErr in
+      let stat_agrees = (match model_path, os with ObsOk a, ObsOk b -> a = b | ObsErr, ObsErr -> true
+                         | _, ObsErr -> (match href_unmarshal m with Ok (HAuth _) -> true | _ -> false) | _ -> false) in
+      let agree = href_rt_agrees p m ox && stat_agrees in
+      let spec = href_rt_spec_ok p m ox && (if href_in_domain p then os = ObsOk p else os <> ObsPanic) in
+      verdict ~agree ~spec ~kf:"-" ~detail:(fun () -> Printf.sprintf "model marshal=%s unmarshal=%s" (show_chars m) (show_hres (href_unmarshal m)))
+    | [L [A "href-dec"; b]; o] ->
+      let b = str b and o = obs_href o in
+      bump ("href_dec_" ^ okness o ^ (if href_scope b then (match href_den b with Some _ -> "_in_grammar" | None -> "_outside_grammar") else "_not_in_scope"));
+      (match href_unmarshal b with Ok (HAuth _) -> bump "href_dec_authority_not_modelled" | _ -> ());
+      note_nontrivial (show (List.hd sx));
+      let kf = if kf_href_lenient b o then "C16-href-lenient" else "-" in
+      verdict ~agree:(href_dec_agrees b o) ~spec:(href_dec_spec_ok b o) ~kf
+        ~detail:(fun () -> Printf.sprintf "model=%s grammar=%s" (show_hres (href_unmarshal b)) (show_opt show_chars (href_den b)))
+    | [L [A "href-restr"; b]; o] ->
+      let b = str b in
+      bump "href_restr";
+      let agree = (match href_unmarshal b, o with
+        | Ok (HUrl u), L [A "ok"; s; o2] -> url_string u = str s && href_dec_agrees (str s) (obs_href o2)
+        | Ok (HAuth _), _ -> true
+        | Err _, L [A "err"] -> true
+        | _ -> false) in
+      verdict ~agree ~spec:true ~kf:"-" ~detail:(fun () -> "URL.String of a decoded href, and its re-decoding")
+    | [L [A "time-e2e"; t; off]; o] ->
+      let i = (z_ t, z_ off) and o = obs_zz o in
+      let m = time_marshal i in
+      bump ("time_e2e" ^ (if instant_in_domain i then "_in_domain" else "_outside"));
+      if instant_in_domain i then note_nontrivial (show (List.hd sx));
+      verdict ~agree:(time_rt_agrees i m o) ~spec:(time_rt_spec_ok i m o) ~kf:"-"
+        ~detail:(fun () -> Printf.sprintf "model marshal=%s unmarshal=%s" (show_chars m) (show_res show_zz (time_unmarshal m)))
     | [L [A "utf8"; b]; L items] ->
       let b = str b in
       bump "utf8";
